@@ -540,7 +540,7 @@ func runList(c ListCase, o *vk.Obs) string {
 	default:
 		return r.errf("VK-INFRA unknown constructor %q", c.Ctor)
 	}
-	ctx := func() string { return r.errf("") }
+	ctx := r.errf
 	if msg := guarded(ctx, func() string {
 		if k := min(abs(c.Init), maxListLen); k > 0 {
 			vs := make([]int, k)
